@@ -258,6 +258,9 @@ def _compare(  # noqa: C901, PLR0912
         **kwargs,
     ):
         if change.typ == ADD:
+            if change.old is not None:
+                # an entry of unknown kind (e.g. a broken symlink) is in the way
+                _add_delete(change.old)
             _add_create(change.new)
         elif change.typ == DELETE:
             if not delete:
